@@ -88,6 +88,8 @@ theorem oqi_createTask (s : Stack) (k : TaskKind) (h : isOfferK k = false) : oqi
 @[simp] theorem oqi_with_outgoing_sendLog (s : Stack) (x : Outgoing) (y : List (Dest × (Bool × Nat))) : oqi { s with outgoing := x, sendLog := y } = oqi s := rfl
 @[simp] theorem oqi_with_findLog (s : Stack) (x : List (Nat × Nat)) : oqi { s with findLog := x } = oqi s := rfl
 @[simp] theorem oqi_with_findMarks (s : Stack) (x : List (Nat × Nat)) : oqi { s with findMarks := x } = oqi s := rfl
+@[simp] theorem oqi_with_ansLog (s : Stack) (x : List (Nat × Addr × Nat × Nat)) : oqi { s with ansLog := x } = oqi s := rfl
+@[simp] theorem oqi_logAnswer (s : Stack) (i : Nat) (a : Addr) (d : Nat) : oqi (s.logAnswer i a d) = oqi s := rfl
 @[simp] theorem oqi_markFind (s : Stack) (n : Nat) : oqi (s.markFind n) = oqi s := rfl
 @[simp] theorem oqi_with_offLog (s : Stack) (x : List (Nat × OEv × Nat)) : oqi { s with offLog := x } = oqi s := rfl
 @[simp] theorem oqi_logOffer (s : Stack) (i : Nat) (e : OEv) : oqi (s.logOffer i e) = oqi s := rfl
